@@ -500,7 +500,7 @@ impl<K: KeyT, V: ValT> MapWorld<K, V> {
             Kd::Clear => self.op_clear(si, op)?,
             Kd::Reserve | Kd::ShrinkTo | Kd::ShrinkToFit => self.op_capacity(si, op)?,
             Kd::TryReserve => self.op_try_reserve(si, op)?,
-            Kd::Extend | Kd::FromIter => self.op_extend(si, op)?,
+            Kd::Extend | Kd::ExtendRef | Kd::FromIter => self.op_extend(si, op)?,
             Kd::Retain => self.op_retain(si, op)?,
             Kd::ExtractIf => self.op_extract_if(si, op)?,
             Kd::Drain => self.op_drain(si, op)?,
@@ -1037,6 +1037,17 @@ impl<K: KeyT, V: ValT> MapWorld<K, V> {
         Ok(())
     }
 
+    /// The map seen as a map of plain-data pairs, if that is what it is (the by-reference `Extend` impls need
+    /// `K: Copy, V: Copy`, which a generic world cannot promise).
+    fn pod_map(m: &mut SMap<K, V>) -> Option<&mut SMap<crate::elem::PodKey, u32>> {
+        if std::any::TypeId::of::<(K, V)>() == std::any::TypeId::of::<(crate::elem::PodKey, u32)>() {
+            // SAFETY: the two types are the same type
+            Some(unsafe { &mut *(m as *mut SMap<K, V> as *mut SMap<crate::elem::PodKey, u32>) })
+        } else {
+            None
+        }
+    }
+
     fn op_extend(&mut self, si: usize, op: &Op) -> VResult {
         // v = [id, val, id, val, ...]; a = claimed lower size hint (-1 = honest); c = 1: iterator panics after b items
         let pairs: Vec<(u32, u32)> = op.v.chunks(2).filter(|c| c.len() == 2).map(|c| (c[0] as u32 % K::UNIVERSE, Self::nv(c[1] as u32))).collect();
@@ -1058,7 +1069,18 @@ impl<K: KeyT, V: ValT> MapWorld<K, V> {
         if hint >= 0 {
             sim().probe(Probe::SerdeLyingHint);
         }
-        let out = if op.k == Kd::Extend {
+        let out = if op.k == Kd::ExtendRef && Self::pod_map(self.slots[si].map.as_mut().unwrap()).is_some() {
+            // `Extend<(&K, &V)>` / `Extend<&(K, V)>` exist for `Copy` pairs only: the world of plain-data pairs
+            sim().probe(Probe::ExtendByRef);
+            drop(src);
+            let pod: Vec<(crate::elem::PodKey, u32)> = pairs.iter().map(|&(k, v)| (crate::elem::PodKey(k), v)).collect();
+            let m = Self::pod_map(self.slots[si].map.as_mut().unwrap()).unwrap();
+            if op.c % 2 == 0 {
+                self.ctx.call(op, || m.extend(pod.iter().map(|(k, v)| (k, v))))
+            } else {
+                self.ctx.call(op, || m.extend(pod.iter()))
+            }
+        } else if op.k != Kd::FromIter {
             let m = self.slots[si].map.as_mut().unwrap();
             self.ctx.call(op, || m.extend(src))
         } else {
@@ -1090,7 +1112,7 @@ impl<K: KeyT, V: ValT> MapWorld<K, V> {
         if !self.ctx.functional() {
             return Ok(());
         }
-        if op.k == Kd::Extend && hint < 0 && toks.len() <= room && allocs > 0 {
+        if op.k != Kd::FromIter && hint < 0 && toks.len() <= room && allocs > 0 {
             vio!(self, "cap/alloc-with-room", "extend with {} pairs from an honest source into a map with capacity()-len()={room} called the allocator", toks.len());
         }
         for t in toks {
